@@ -273,12 +273,15 @@ func c0809Insts(k int64) []Inst {
 			out = append(out, Inst{Pkg: "gateway", Fn: "VH_C08_hist", Args: []int64{k, first, second}, MaxPaths: 200000})
 		}
 	}
+	// the same exchange through the real receive loop (datagram by datagram)
+	out = append(out, inst("gateway", "VH_C08_session", 0), inst("gateway", "VH_C08_session", 1))
 	return out
 }
 
 var c0809Bounds = map[string]string{
 	"histories":     "fresh session, k events (quick k = 3, thorough k = 4): first event fixed per instance, the others chosen symbolically among CONNECT (will flag, clean session, keep-alive incl. 0, client ID symbolic), AUTH with a 5-byte method (PLAIN reachable) and 3 or 4 symbolic data bytes, AUTH with a 1-byte method, WILLTOPIC (2 bytes / empty), WILLMSG (1 byte / empty), broker CONNACK (return code symbolic) when a CONNECT is pending",
 	"configuration": "auth on/off, gateway credentials absent/present (1 symbolic byte each)",
+	"session":       "CONNECT (with / without will), AUTH PLAIN (2 user + 3 password bytes symbolic), WILLTOPIC, WILLMSG (symbolic) through the real run() and snReceiveLoop: the MQTT CONNECT carries exactly those credentials and that will",
 	"oracle":        "reference state machine of the connect exchange + reference SASL PLAIN splitter + independent MQTT CONNECT parser",
 }
 
@@ -287,7 +290,7 @@ func init() {
 		ID: "C08", Pkgs: []string{"gateway", "util"},
 		Quick: func() []Inst { return c0809Insts(3) }, Thor: func() []Inst { return c0809Insts(4) },
 		Asserts: []string{"C08.unknown_method_not_supported", "C08.connect_needs_plain_auth", "C08.connect_carries_auth_credentials", "C08.connect_carries_gateway_credentials"},
-		Reach:   []string{"C08.unknown_method"},
+		Reach:   []string{"C08.unknown_method", "C08.session_connect_sent"},
 		Bounds:  c0809Bounds, Outside: []string{"longer histories", "AUTH data longer than 4 bytes"},
 	})
 	reg(&Spec{
